@@ -149,3 +149,36 @@ pub fn fsck_file(toks: &[&str]) -> String {
         None => "ok no-reader".to_string()
     }
 }
+
+
+/// pdtree id label chunkspec : store one file with the given chunk set on a fresh ProDOS volume, then read the structure raw
+/// (directory entry, master index block, index blocks): "storage key blocks ; m:ptr,... ; chunk:block,..."
+pub fn pdtree(toks: &[&str]) -> String {
+    let label = toks[2];
+    let mut d = match crate::fsrun::mkfs("prodos",label) { Ok(d) => d, Err(e) => return format!("MKFS-ERR {}",e) };
+    let idx: Vec<usize> = toks[3].split(',').flat_map(|p| { if let Some((a,b)) = p.split_once('-') { (a.parse::<usize>().unwrap()..=b.parse::<usize>().unwrap()).collect::<Vec<usize>>() } else { vec![p.parse::<usize>().unwrap()] } }).collect();
+    let mut f = match d.new_fimg(None,false,"T") { Ok(f) => f, Err(e) => return format!("ERR {}",e) };
+    let end = idx.iter().max().map(|m| m+1).unwrap_or(0);
+    for i in &idx { f.chunks.insert(*i,crate::fsrun::payload(1,*i,512)); }
+    f.set_eof(end*512);
+    f.access = vec![0xE3];
+    if let Err(e) = d.put(&f) { return format!("refused {}",e); }
+    let img = d.get_img();
+    let blk = |img: &mut Box<dyn a2kit::img::DiskImage>,b: usize| -> Vec<u8> { img.read_block(a2kit::fs::Block::PO(b)).unwrap_or(vec![0;512]) };
+    let dirb = blk(img,2);
+    let e = &dirb[43..82];
+    let storage = (e[0] >> 4) as usize;
+    let key = e[17] as usize + 256*e[18] as usize;
+    let blocks = e[19] as usize + 256*e[20] as usize;
+    let ptrs = |b: &Vec<u8>| -> Vec<usize> { (0..256).map(|i| b[i] as usize + 256*b[i+256] as usize).collect() };
+    let mut master: Vec<String> = Vec::new();
+    let mut pairs: Vec<String> = Vec::new();
+    match storage {
+        1 => pairs.push(format!("0:{}",key)),
+        2 => { let t = ptrs(&blk(img,key)); for (j,p) in t.iter().enumerate() { if *p>0 { pairs.push(format!("{}:{}",j,p)); } } },
+        3 => { let m = ptrs(&blk(img,key));
+               for (g,ip) in m.iter().enumerate() { if *ip>0 { master.push(format!("{}:{}",g,ip)); let t = ptrs(&blk(img,*ip)); for (j,p) in t.iter().enumerate() { if *p>0 { pairs.push(format!("{}:{}",256*g+j,p)); } } } } },
+        _ => return format!("storage {}",storage)
+    }
+    format!("{} {} {} ; {} ; {}",storage,key,blocks,master.join(","),pairs.join(","))
+}
